@@ -174,8 +174,7 @@ static void m_consume(int after_loop)
 				const char *why = !m.en[d] ? "while-disabled" : !m.tmo[d] ? "without-timeout-set" :
 				    m.susp_bw[d] ? "while-suspended-for-bandwidth" :
 				    d == R ? "while-suspended" : "with-empty-output";
-				char det[96]; snprintf(det, sizeof det, "%s/after-%s", why, byname[m.last[d]]);
-				failk(d, "spurious", det, "timeout fired although the idle timer is not running%.0lld%.0lld", 0, 0);
+				failk(d, "spurious", why, "timeout fired although the idle timer is not running%.0lld%.0lld", 0, 0);
 				break;
 			}
 			if (e->t < m.deadline[d]) {
@@ -302,7 +301,6 @@ static uint64_t canon(void)
 		h = mc_hash_u64(h, m.armed[d] ? (uint64_t)(m.deadline[d] - vclock_us) : 0);
 		h = mc_hash_u64(h, m.armed[d] ? (uint64_t)m.by[d] : 0);
 		h = mc_hash_u64(h, (uint64_t)m.susp_bw[d]);
-		h = mc_hash_u64(h, (uint64_t)m.last[d]);
 	}
 	h = mc_hash_u64(h, m.wm_high); h = mc_hash_u64(h, m.inlen); h = mc_hash_u64(h, m.outlen);
 	h = h_bev(h, B);
@@ -354,6 +352,7 @@ static void body(void)
 	int D = mc_param("depth", 5);
 	int bevopts = mc_param("defer", 0) ? BEV_OPT_DEFER_CALLBACKS : 0;
 	int big = mc_param("big", 8192);
+	int noset = mc_param("noset", 0);
 	int pwm = mc_param("pwm", 8);            /* peer's read high-water mark (pair types): partial transfers */
 	static int fd_base = -1;   /* lowest free descriptor at baseline; executions use < 64 descriptors */
 	long live0 = mcx_alloc_live();
@@ -401,8 +400,10 @@ static void body(void)
 	enum { OP_END, OP_SETTMO, OP_EN_R, OP_EN_W, OP_DIS_R, OP_DIS_W, OP_WRITE, OP_WRITE_BIG, OP_PEER_WRITE,
 	       OP_DRAIN, OP_PEER_DRAIN, OP_WM, OP_ADV, OP_LOOP, N_OPS };
 	for (int step = 0; step < D && !dead; step++) {
-		int op = mc_choose(N_OPS, 0, "op");
+		/* -P noset=1 (with preset -P rt/wt): set_timeouts is not part of the alphabet */
+		int op = noset ? mc_choose(N_OPS - 1, 0, "op") : mc_choose(N_OPS, 0, "op");
 		int after_loop = 0;
+		if (noset && op >= OP_SETTMO) op++;
 		if (op == OP_END) break;
 		switch (op) {
 		case OP_SETTMO: {
